@@ -53,6 +53,7 @@ type c17seq struct {
 	ops     []string // replay
 	flags   map[string]bool
 	closed  bool
+	noClose bool
 	capNow  int
 }
 
@@ -199,6 +200,9 @@ func (q *c17seq) step(r *rng.R, nkeys, nns int) {
 		q.capNow = c
 		q.emit(fmt.Sprintf("setcap %d", c), "ok")
 	case x < 968:
+		if q.noClose {
+			return
+		}
 		force := r.Intn(2)
 		if !q.closed {
 			q.stats()
@@ -212,39 +216,54 @@ func (q *c17seq) step(r *rng.R, nkeys, nns int) {
 
 // c17Sequence runs one random op sequence on a fresh cache.
 func c17Sequence(c *Ctx, r *rng.R, nops, nkeys, nns, capacity int, big bool) {
-	q := &c17seq{c: c, delRuns: map[int]int{}, flags: map[string]bool{}, capNow: capacity}
+	q := &c17seq{c: c, delRuns: map[int]int{}, flags: map[string]bool{}, capNow: capacity, noClose: big}
 	q.cc = cache.NewCache(cache.NewLRU(capacity))
 	c.Lean(fmt.Sprintf("cache new %d", capacity), "ok")
 	q.ops = append(q.ops, fmt.Sprintf("new %d", capacity))
 	c.Guard("cache:sequential", map[string]interface{}{"ops": q.ops}, func() {
+		cycles := 1
 		if big {
-			// fill past the grow threshold of the hash table, holding nothing, then drain to shrink it
-			for i := 0; i < nkeys; i++ {
-				ns, k := uint64(i%nns), uint64(i)
-				id := len(q.vals)
-				h := q.cc.Get(ns, k, func() (int, cache.Value) {
-					q.rec.ctor = true
-					v := &c17val{id: id, rec: &q.rec}
-					q.vals = append(q.vals, v)
-					return 1, v
-				})
-				res := fmt.Sprintf("h%d:v%d", len(q.hs), id)
-				q.hs = append(q.hs, h)
-				q.emit(fmt.Sprintf("get %d %d v1", ns, k), res)
-				if i%3 != 0 {
-					h.Release()
-					q.emit(fmt.Sprintf("rel %d", len(q.hs)-1), "ok")
-				} else {
-					q.live = append(q.live, len(q.hs)-1)
+			cycles = 2
+		}
+		for cy := 0; cy < cycles; cy++ {
+			if big {
+				// fill past the grow threshold of the hash table, then (below) drain to shrink it
+				for i := 0; i < nkeys; i++ {
+					ns, k := uint64(i%nns), uint64(i)
+					sf := "v1"
+					h := q.cc.Get(ns, k, func() (int, cache.Value) {
+						q.rec.ctor = true
+						v := &c17val{id: len(q.vals), rec: &q.rec}
+						q.vals = append(q.vals, v)
+						return 1, v
+					})
+					v := h.Value().(*c17val)
+					res := fmt.Sprintf("h%d:v%d", len(q.hs), v.id)
+					q.hs = append(q.hs, h)
+					q.emit(fmt.Sprintf("get %d %d %s", ns, k, sf), res)
+					if i%3 != 0 {
+						h.Release()
+						q.emit(fmt.Sprintf("rel %d", len(q.hs)-1), "ok")
+					} else {
+						q.live = append(q.live, len(q.hs)-1)
+					}
 				}
 			}
-		}
-		for i := 0; i < nops; i++ {
-			q.step(r, nkeys, nns)
-		}
-		if big && !q.closed {
-			q.cc.EvictAll()
-			q.emit("evictall", "ok")
+			for i := 0; i < nops; i++ {
+				q.step(r, nkeys, nns)
+			}
+			if big {
+				q.cc.SetCapacity(nkeys + 50)
+				q.capNow = nkeys + 50
+				q.emit(fmt.Sprintf("setcap %d", nkeys+50), "ok")
+				q.cc.EvictAll()
+				q.emit("evictall", "ok")
+				for _, h := range q.live {
+					q.hs[h].Release()
+					q.emit(fmt.Sprintf("rel %d", h), "ok")
+				}
+				q.live = nil
+			}
 		}
 		// end of sequence: release everything and close; then every value was finalised once
 		for _, h := range q.live {
@@ -280,18 +299,18 @@ func c17Sequence(c *Ctx, r *rng.R, nops, nkeys, nns, capacity int, big bool) {
 func runC17(c *Ctx) {
 	c.Res.Rule = "(a) random op sequences on cache.NewCache(cache.NewLRU(cap)) — Get with/without setFunc (nil-value setFuncs, charges 0/1..3/cap/cap+1), Handle.Release (also repeated), Handle.Value, Delete with/without delFunc, Evict, EvictNS, EvictAll, SetCapacity, Close(force)/Close(weak) — every call's observable outcome (handle/value identity, setFunc ran, finalisers run, delFuncs run, Nodes(), Size()) compared line by line with Model/Cache.lean; small dense key spaces plus sequences over hundreds of keys that grow and shrink the hash table; non-trivial = a Get evicted and finalised another value and some Get was a hit; (b) concurrent stress, see c17conc.go"
 	r := c.R
-	nseq := c.Scale(220, 2200)
+	nseq := c.Scale(400, 4000)
 	for i := 0; i < nseq && c.TimeLeft(); i++ {
 		rr := r.Fork()
 		nkeys := rr.Pick(3, 6, 12, 30)
 		capacity := rr.Pick(0, 1, 2, 4, 7, 12, 25)
 		c17Sequence(c, rr, 120+rr.Intn(200), nkeys, 1+rr.Intn(3), capacity, false)
 	}
-	nbig := c.Scale(4, 40)
+	nbig := c.Scale(5, 50)
 	for i := 0; i < nbig && c.TimeLeft(); i++ {
 		rr := r.Fork()
 		nkeys := 560 + rr.Intn(300)
-		c17Sequence(c, rr, 300, nkeys, 1+rr.Intn(3), nkeys+rr.Intn(50), true)
+		c17Sequence(c, rr, 150, nkeys, 1+rr.Intn(3), nkeys+rr.Intn(50), true)
 	}
 	c17Concurrent(c)
 }
